@@ -98,33 +98,11 @@ theorem rec_prog (vc : ValueCfg) (x y : String) (r : Rec) (env : EEnv) :
   rw [runL_cons, runL_nil, runE_value vc _ e.2.2 _ (by path_simp), append_ok_nil]
 
 
-def tfieldProg : List Emit := [.num ["field", "field_type_number"] 2, .num ["field", "field_length"] 2]
 
-def v9TemplatesProg : List Emit :=
-  [.each ["templates", "templates"] "template"
-     [.num ["template", "template_id"] 2, .num ["template", "field_count"] 2, .each ["template", "fields"] "field" tfieldProg],
-   .bytes ["templates", "padding"]]
 
-def v9OptTemplatesProg : List Emit :=
-  [.each ["options_templates", "templates"] "template"
-     [.num ["template", "template_id"] 2, .num ["template", "options_scope_length"] 2, .num ["template", "options_length"] 2,
-      .each ["template", "scope_fields"] "field" tfieldProg, .each ["template", "option_fields"] "field" tfieldProg],
-   .bytes ["options_templates", "padding"]]
 
-def v9DataProg : List Emit :=
-  [.each ["data", "fields"] "data_field" [.each ["data_field"] "field_value" [.value ["field_value"]]], .bytes ["data", "padding"]]
 
-def v9OptDataProg : List Emit :=
-  [.each ["options_data", "scope_fields"] "scope_field" [.payload ["scope_field"]],
-   .each ["options_data", "options_fields"] "option_field" [.bytes ["option_field", "field_value"]],
-   .bytes ["options_data", "padding"]]
 
-def v9SetProg : List Emit :=
-  [.num ["set", "header", "flowset_id"] 2, .num ["set", "header", "length"] 2,
-   .whenVariant ["set", "body"] "Template" "templates" v9TemplatesProg,
-   .whenVariant ["set", "body"] "OptionsTemplate" "options_templates" v9OptTemplatesProg,
-   .whenVariant ["set", "body"] "Data" "data" v9DataProg,
-   .whenVariant ["set", "body"] "OptionsData" "options_data" v9OptDataProg]
 
 theorem v9templates_prog (vc : ValueCfg) (ts : List V9Template) (pad : Bytes) (env : EEnv) :
     runL vc v9TemplatesProg (("templates", .struct [("templates", .list (ts.map treeOfV9Template)), ("padding", .bytes pad)]) :: env)
@@ -245,9 +223,6 @@ theorem v9_prog (c : Config) (hc : c.t.v9Hdr = Generated.v9Hdr) (ho : c.t.v9HdrO
 
 /-! ### IPFIX -/
 
-def ipFieldProg : List Emit :=
-  [.num ["field", "field_type_number"] 2, .num ["field", "field_length"] 2,
-   .whenSome ["field", "enterprise_number"] "enterprise" [.num ["enterprise"] 4]]
 
 theorem ipfield_prog (vc : ValueCfg) (f : IpTField) (env : EEnv) :
     runL vc ipFieldProg (("field", treeOfIpTField f) :: env) = .ok (exportIpTField f) := by
@@ -261,23 +236,9 @@ theorem ipfield_prog (vc : ValueCfg) (f : IpTField) (env : EEnv) :
     rw [runE_some vc _ _ _ _ (.num e) (by path_simp_h he), runL_cons, runL_nil, runE_num vc _ 4 e _ (by path_simp)]
     simp [Out.append, exportIpTField, he]
 
-def ipTemplateProg : List Emit :=
-  [.num ["template", "template_id"] 2, .num ["template", "field_count"] 2, .each ["template", "fields"] "field" ipFieldProg,
-   .bytes ["template", "padding"]]
 
-def ipOptTemplateProg : List Emit :=
-  [.num ["options_template", "template_id"] 2, .num ["options_template", "field_count"] 2, .num ["options_template", "scope_field_count"] 2,
-   .each ["options_template", "fields"] "field" ipFieldProg, .bytes ["options_template", "padding"]]
 
-def ipDataProg : List Emit :=
-  [.each ["data", "fields"] "item" [.each ["item"] "v" [.value ["v"]]], .bytes ["data", "padding"]]
 
-def ipSetProg : List Emit :=
-  [.num ["flow", "header", "header_id"] 2, .num ["flow", "header", "length"] 2,
-   .whenVariant ["flow", "body"] "Template" "template" ipTemplateProg,
-   .whenVariant ["flow", "body"] "OptionsTemplate" "options_template" ipOptTemplateProg,
-   .whenVariant ["flow", "body"] "Data" "data" ipDataProg,
-   .whenVariant ["flow", "body"] "OptionsData" "data" ipDataProg]
 
 theorem iptemplate_prog (vc : ValueCfg) (t : IpTemplate) (env : EEnv) :
     runL vc ipTemplateProg
